@@ -377,3 +377,78 @@ func init() {
 }
 
 var _ = cfg.KindBody
+
+// REG.rest-slice — the binder pads every absent &optional formal with () before
+// the &rest cells.  A body that takes "the remaining arguments" as
+// args.Cells[k:] with k inside the optional section therefore sees those
+// padding cells as data.  For `error` that data is what handlers receive (C06:
+// "the handler is called with the condition and the error's data"), so the
+// registered formals and the slice must agree.
+func init() {
+	register(&Rule{ID: "REG.rest-slice", Floor: 20,
+		Doc: "in every registered builtin/operator/macro whose formals have &rest, an open slice args.Cells[k:] with constant k starts at or after the rest position (required + optional formals) or inside the required section — never inside the &optional section, where the binder's () padding for absent optionals would be taken for caller data",
+		Run: func(c *Ctx) []Obligation {
+			const rid = "REG.rest-slice"
+			cellsFld := c.LookupField("lisp.LVal.Cells")
+			if cellsFld == nil {
+				return []Obligation{anchorMissing(rid, "LVal.Cells")}
+			}
+			var obs []Obligation
+			seen := map[ast.Node]bool{}
+			for _, e := range c.Registry() {
+				if e.Problem != "" {
+					continue
+				}
+				req, restIdx, hasRest, inOpt := 0, 0, false, false
+				for _, f := range e.Formals {
+					switch {
+					case f == "&rest":
+						hasRest = true
+					case f == "&optional":
+						inOpt = true
+					case strings.HasPrefix(f, "&"):
+					default:
+						if hasRest {
+							continue
+						}
+						restIdx++
+						if !inOpt {
+							req++
+						}
+					}
+				}
+				if !hasRest {
+					continue
+				}
+				body, u, lit, ok := c.BodyOf(e)
+				if !ok || seen[body] {
+					continue
+				}
+				seen[body] = true
+				info := u.Pkg.TypesInfo
+				args := argsParam(info, u, lit)
+				if args == nil {
+					continue
+				}
+				ord := &ordinal{}
+				ast.Inspect(body, func(n ast.Node) bool {
+					sl, ok := n.(*ast.SliceExpr)
+					if !ok || sl.Low == nil || sl.High != nil || !isArgsCells(info, sl.X, args, cellsFld) {
+						return true
+					}
+					k, okc := intConst(info, sl.Low)
+					if !okc {
+						return true
+					}
+					construct := ord.next(fmt.Sprintf("%s: args.Cells[%d:]", e.Name, k))
+					if k >= req && k < restIdx {
+						obs = append(obs, mkOb(c, rid, u, construct, sl, Violated, fmt.Sprintf("%s is registered with %d required and %d optional formals before &rest, and takes args.Cells[%d:] as the remaining arguments: when the optional is absent the binder pads it with (), which this slice hands on as data (for `error`: handlers receive one datum `()` for an error signalled with none)", e.Name, req, restIdx-req, k), true))
+					} else {
+						obs = append(obs, mkOb(c, rid, u, construct, sl, Proved, fmt.Sprintf("rest position %d, required %d", restIdx, req), false))
+					}
+					return true
+				})
+			}
+			return obs
+		}})
+}
